@@ -460,6 +460,7 @@ main(void)
 			return (2);
 		if (pid == 0) {
 			close(pfd[0]);
+			drv_case_limits();
 			exit(run_case(pfd[1]));
 		}
 		close(pfd[1]);
